@@ -753,7 +753,9 @@ def main():
     tm_all = load_timings()
     hs.sort(key=lambda h: -(tm_all.get(h["name"], {}).get("s") or float(h["to"]) / 4))
     results = {}
-    budget = a.budget if a.budget else (QUICK_BUDGET_S if tier == "quick" else None)
+    # thorough: after 45 min no further query is started (running ones finish within their own timeout);
+    # whatever was not started is listed as not_run in the evidence
+    budget = a.budget if a.budget else (QUICK_BUDGET_S if tier == "quick" else 2700.0)
     deadline = t0 + budget if budget else None
     if tier == "quick" and deadline:
         DEADLINE[0] = deadline
